@@ -298,11 +298,11 @@ func main() {
 	}
 	// (4) oversize frames: max message size 64; a valid message, the offending header (+4 body bytes), a valid message
 	for _, ov := range [][]byte{
-		{0xd1, 51, 0x02, 0xaa, 1, 2, 3, 4},                                      // 13-class: total length 65 = max+1
-		{0xe0, 0x00, 0x10, 0x02, 1, 2, 3, 4},                                    // 14-class
-		append(append([]byte{0xf2}, be32(100)...), 0x02, 0xaa, 0xbb, 1, 2, 3, 4), // 15-class
-		append(append([]byte{0xf0}, be32(0xffffffff)...), 0x02, 1, 2, 3, 4),      // wraps 2^32
-		append(append([]byte{0xf0}, be32(0xfffefeed)...), 0x02, 1, 2, 3, 4),      // exactly 2^32
+		{0xd1, 51, 0x02, 0xaa, 1, 2, 3, 4},                                        // 13-class: total length 65 = max+1
+		{0xe0, 0x00, 0x10, 0x02, 1, 2, 3, 4},                                      // 14-class
+		append(append([]byte{0xf2}, be32(100)...), 0x02, 0xaa, 0xbb, 1, 2, 3, 4),  // 15-class
+		append(append([]byte{0xf0}, be32(0xffffffff)...), 0x02, 1, 2, 3, 4),       // wraps 2^32
+		append(append([]byte{0xf0}, be32(0xfffefeed)...), 0x02, 1, 2, 3, 4),       // exactly 2^32
 		append(append([]byte{0xf1}, be32(0xfffefef0)...), 0x02, 0xaa, 1, 2, 3, 4), // 2^32 + small
 	} {
 		for _, ca := range []uint16{1, 3, 2048} {
